@@ -5,6 +5,7 @@ import (
 	"go/types"
 	"regexp"
 
+	"github.com/lopolopen/shoot/internal/shoot"
 	"github.com/lopolopen/shoot/internal/transfer"
 	"golang.org/x/tools/go/packages"
 )
@@ -15,7 +16,7 @@ func (g *Generator) parseFields(pkg *packages.Package, typeName string, tagMap, 
 	*ptrTypeMap = make(map[string]string)
 	var fields []*Field
 	for _, f := range pkg.Syntax {
-		ast.Inspect(f, func(n ast.Node) bool {
+		shoot.InspectTopLevel(f, func(n ast.Node) bool {
 			if !g.testNode(typeName, n) {
 				return true
 			}
